@@ -111,6 +111,18 @@ def run_lookup(case, pname):
            {k: v[0] for k, v in want_all.items()})
     except Exception as e:
         problems.append('raised %r' % (e,))
+    # a value column that holds None in the FIRST row of every key: the first row still wins
+    try:
+        tn = [hdr + ['w']] + [r + [None if all(tuple(r[:len(r) - 1]) != tuple(q[:len(q) - 1]) for q in rows[:i]) else i]
+                              for i, r in enumerate(rows)]
+        kf = (lambda r: tuple(r[:2])) if compound else (lambda r: r[0])
+        want_first = {}
+        for r in tn[1:]:
+            want_first.setdefault(ck([prof.abs(c) for c in r[:2]] if compound else prof.abs(r[0])), r[-1])
+        eq('lookupone(value=w with None)', etl.lookupone(tn, key, 'w'), want_first)
+        eq('lookup(value=w with None)', {k: v[0] for k, v in etl.lookup(tn, key, 'w').items()}, want_first)
+    except Exception as e:
+        problems.append('lookupone(value=w) raised %r' % (e,))
     for name in ('lookupone', 'dictlookupone', 'recordlookupone'):
         try:
             getattr(etl, name)(t, key, strict=True)
